@@ -410,6 +410,8 @@ def deep_copy(ip, x, memo=None):
             o.f[k] = deep_copy(ip, v, memo)
         if hasattr(x, "frozen"):
             o.frozen = x.frozen
+        if getattr(x, "partial", False):
+            o.partial = True
         return o
     if isinstance(x, list):
         l = type(x)() if type(x) is not list else []
@@ -425,6 +427,10 @@ def deep_copy(ip, x, memo=None):
         for k, v in x.items():
             d[k] = deep_copy(ip, v, memo)
         return d
+    if isinstance(x, PyObj) and "__deepcopy_hook__" in x.attrs:
+        o = x.attrs["__deepcopy_hook__"](ip, memo)
+        memo[id(x)] = o
+        return o
     if isinstance(x, PyFn) and getattr(x, "weak_target", None) is not None:
         # weakref to an object inside the copied graph points to the copy
         tgt = deep_copy(ip, x.weak_target, memo)
@@ -443,6 +449,9 @@ def _deepcopy(ip, x):
 def _copy(ip, x):
     if isinstance(x, Obj):
         o = Obj(x.cls, dict(x.f), tag=x.tag)
+        for a in ("dc", "partial", "frozen"):
+            if hasattr(x, a):
+                setattr(o, a, getattr(x, a))
         return o
     if isinstance(x, dict):
         return dict(x)
@@ -451,6 +460,25 @@ def _copy(ip, x):
     if is_z3(x) or isinstance(x, (int, float, str, tuple)):
         return x
     raise Unsupported("copy.copy")
+
+
+@model("dataclasses.replace")
+def _dc_replace(ip, obj, **changes):
+    """A-PY dataclasses.replace: a NEW instance built by the class constructor from the init fields (changed ones replaced);
+    fields declared init=False cannot be named and come back with their constructor-time (default / __post_init__) value."""
+    meta = getattr(obj, "dc", None)
+    if not isinstance(obj, Obj) or meta is None:
+        raise Unsupported("dataclasses.replace on an object without dataclass metadata")
+    for k in changes:
+        if k in meta["noinit"]:
+            raise PyRaise("ValueError", (f"field {k} is declared with init=False, it cannot be specified with replace()",))
+        if k not in meta["init"]:
+            raise PyRaise("TypeError", (f"unexpected keyword argument {k}",))
+    o = Obj(obj.cls, {k: changes.get(k, obj.f[k]) for k in meta["init"]}, tag=obj.tag)
+    for k, dflt in meta["noinit"].items():
+        o.f[k] = dflt(ip, o) if callable(dflt) else dflt
+    o.dc = meta
+    return o
 
 
 @model("itertools.chain")
